@@ -60,40 +60,46 @@ class SuffixTrie(object):
         hostname = parsed.hostname.lower().rstrip(".")
         parts = hostname.split(".")
 
-        current_length = 0
         suffix_length = 0
+        exception_length = 0
         l = len(parts)
 
-        node = self.__root
+        # NOTE: a label can match both an explicit rule and a wildcard one,
+        # hence we need to follow every matching branch
+        nodes = [self.__root]
 
         for i in range(l - 1, -1, -1):
             part = parts[i]
+            depth = l - i
+            next_nodes = []
 
-            # Exception rules prevail and yield their parent as suffix
-            if node.exceptions is not None and part in node.exceptions:
-                suffix_length = current_length
+            for node in nodes:
+
+                # Exception rules prevail and yield their parent as suffix
+                if node.exceptions is not None and part in node.exceptions:
+                    exception_length = max(exception_length, depth)
+
+                if node.children is None:
+                    continue
+
+                for key in (part, "*"):
+                    child = node.children.get(key)
+
+                    if child is None:
+                        continue
+
+                    next_nodes.append(child)
+
+                    if child.leaf:
+                        suffix_length = max(suffix_length, depth)
+
+            nodes = next_nodes
+
+            if not nodes:
                 break
 
-            # Cannot go deeper
-            if node.children is None:
-                break
-
-            child = node.children.get(part)
-
-            # Wildcards
-            if child is None:
-                child = node.children.get("*")
-
-            # If the current part is not in current node's children, we can stop
-            if child is None:
-                break
-
-            # Else we move deeper and increment our suffix offset
-            current_length += 1
-            node = child
-
-            if node.leaf:
-                suffix_length = current_length
+        if exception_length > 0:
+            suffix_length = exception_length - 1
 
         # No rule matched
         if suffix_length == 0:
